@@ -1,6 +1,7 @@
 (* C11 -- general lemmas about the stream stepping model (PV.Model.Window):
-   list update, guards, "a node whose guard time reached t is frozen", stepping a node whose parent
-   was already stepped, preservation of the number of nodes and of the time bound, runs. *)
+   list update, guards, "a stream whose guard time reached t is frozen", stepping a stream whose parent was
+   already stepped, preservation of the number of streams and of the time bound, runs, k capturing consumers,
+   and the generic invariant of "a stream on a queue source with anything registered after it". *)
 From Coq Require Import ZArith NArith Bool String List Lia.
 Require Import PV.Base.Val PV.Gen.Window PV.Model.Window.
 Import ListNotations.
@@ -407,3 +408,206 @@ Proof.
       * intros i Hi. rewrite Hoth by lia. unfold st1, add_log; cbn [gnodes]. rewrite nth_put_neq by lia. reflexivity.
       * rewrite Hlen. unfold st1, add_log; cbn [gnodes]. apply put_length.
 Qed.
+
+(* the RDD the queue source yields in interval i+1: the (i+1)-th queued batch, EmptyRDD once exhausted *)
+Definition src_rdd (q : list (list val)) (i : nat) : rdd :=
+  match nth_error q i with Some b => RData b | None => REmpty end.
+Definition src_state (q : list (list val)) (n : nat) (T : Z) : nstate :=
+  mkN T (match n with O => RNone | S m => src_rdd q m end) (skipn n q) [] win_counter_init [].
+
+Lemma skipn_step {A} n (q : list A) :
+  match skipn n q with
+  | [] => nth_error q n = None /\ skipn (S n) q = []
+  | b :: r => nth_error q n = Some b /\ skipn (S n) q = r
+  end.
+Proof.
+  revert q; induction n as [|n IH]; intros [|x q].
+  - split; reflexivity.
+  - split; reflexivity.
+  - split; reflexivity.
+  - exact (IH q).
+Qed.
+
+Lemma src_pop_state q n T t : src_pop (set_time t (src_state q n T)) = src_state q (S n) t.
+Proof.
+  unfold src_state, set_time, src_pop; cbn [nqueue ntime nrdd nbuf nctr nkv].
+  pose proof (skipn_step n q) as H. unfold src_rdd.
+  destruct (skipn n q) as [|b r]; destruct H as [H1 H2]; rewrite H1, H2; reflexivity.
+Qed.
+
+Lemma src_rdd_not_none q i : is_none_rdd (src_rdd q i) = false.
+Proof. unfold src_rdd. destruct (nth_error q i); reflexivity. Qed.
+
+Lemma consumers_from_length p j0 k : length (consumers_from p j0 k) = k.
+Proof. unfold consumers_from. now rewrite map_length, seq_length. Qed.
+
+Lemma consumers_from_nth p j0 k j : (j < k)%nat ->
+  nth_error (consumers_from p j0 k) j = Some (Trans (FCapture (Z.of_nat (j0 + j))) p).
+Proof.
+  intros H. unfold consumers_from. rewrite nth_error_map.
+  rewrite (nth_error_nth' _ 0%nat) by (now rewrite seq_length).
+  rewrite seq_nth by assumption. reflexivity.
+Qed.
+
+(* what k consumers of a stream log, tick after tick, when R n is the stream's RDD after n intervals
+   (n = intervals already elapsed) *)
+Fixpoint cons_log (R : nat -> rdd) (k : nat) (n : nat) (ts : list Z) : list logentry :=
+  match ts with
+  | [] => []
+  | t :: ts' => map (fun j => (t, Z.of_nat j, obs_of (R (S n)))) (seq 0 k) ++ cons_log R k (S n) ts'
+  end.
+
+(* ---------- a stream nd1 on a queue source (streams 0 and 1), any streams registered after them ----------
+   S1 n T: the state of stream 1 after n intervals, the last at time T.  The hypothesis S1_step is what the
+   instances (Window, Stateful) establish: one step of stream 1 once the source has produced interval n+1. *)
+Section TwoNode.
+Variables (q : list (list val)) (nd1 : node) (S1 : nat -> Z -> nstate) (R1 : nat -> rdd).
+Hypothesis S1_time : forall n T, ntime (S1 n T) = T.
+Hypothesis S1_rdd : forall n T, nrdd (S1 n T) = R1 n.
+Hypothesis S1_init : init_node nd1 = S1 0%nat 0.
+Hypothesis S1_step : forall F tail st n T t,
+  nth_error (gnodes st) 0 = Some (src_state q (S n) t) -> nth_error (gnodes st) 1 = Some (S1 n T) -> T < t ->
+  step (S (S F)) (Src q :: nd1 :: tail) 1 t st = (put 1 (S1 (S n) t) st, None).
+
+Definition TInv (n : nat) (T : Z) (st : gstate) : Prop :=
+  nth_error (gnodes st) 0 = Some (src_state q n T) /\ nth_error (gnodes st) 1 = Some (S1 n T).
+
+Section AnyTail.
+Variable tail : list node.
+Local Notation g := (Src q :: nd1 :: tail).
+
+Lemma tinv_init : TInv 0 0 (init_state g).
+Proof. split; cbn; [reflexivity|]. now rewrite S1_init. Qed.
+
+Lemma tinv_two_steps n T t st F :
+  TInv n T st -> T < t ->
+  exists st2, tick_nodes (S (S F)) g [0%nat; 1%nat] t st = (st2, None) /\ TInv (S n) t st2
+              /\ glog st2 = glog st /\ length (gnodes st2) = length (gnodes st)
+              /\ (forall j, (2 <= j)%nat -> nth_error (gnodes st2) j = nth_error (gnodes st) j).
+Proof.
+  intros [H0 H1] Ht. cbn [tick_nodes].
+  rewrite (step_src_go _ g 0 t st q _ eq_refl H0) by (cbn; lia).
+  rewrite src_pop_state.
+  set (st1 := put 0 (src_state q (S n) t) st).
+  assert (H0' : nth_error (gnodes st1) 0 = Some (src_state q (S n) t)) by (apply (nth_put_eq _ _ _ _ H0)).
+  assert (H1' : nth_error (gnodes st1) 1 = Some (S1 n T)) by (unfold st1; rewrite nth_put_neq; auto).
+  rewrite (S1_step F tail st1 n T t H0' H1' Ht).
+  eexists; split; [reflexivity|]. split; [split|split; [|split]].
+  - rewrite nth_put_neq; auto.
+  - apply (nth_put_eq _ _ _ _ H1').
+  - reflexivity.
+  - unfold st1. rewrite !put_nodes, !upd_length. reflexivity.
+  - intros j Hj. unfold st1. rewrite !nth_put_neq by lia. reflexivity.
+Qed.
+
+Lemma tinv_tick n T t st : TInv n T st -> T < t -> TInv (S n) t (fst (tick g t st)).
+Proof.
+  intros HI Ht. unfold tick. cbn [length seq].
+  change (0%nat :: 1%nat :: seq 2 (length tail)) with ([0%nat; 1%nat] ++ seq 2 (length tail)).
+  destruct (tinv_two_steps n T t st (length tail) HI Ht) as (st2 & E & [I0 I1] & _).
+  rewrite tick_nodes_app, E.
+  split; apply tick_nodes_frozen; auto; cbn [src_state ntime]; rewrite ?S1_time; lia.
+Qed.
+
+Lemma tinv_run : forall ts n T st,
+  TInv n T st -> increasing T ts -> TInv (n + length ts) (last ts T) (fst (run_ticks g ts st)).
+Proof.
+  induction ts as [|t ts IH]; intros n T st HI Hinc.
+  - cbn. now rewrite Nat.add_0_r.
+  - destruct Hinc as [Ht Hinc]. rewrite run_ticks_cons, last_cons.
+    cbn [length]. rewrite <- Nat.add_succ_comm.
+    apply IH; auto. apply (tinv_tick n T); auto.
+Qed.
+
+(* the state of stream 1 after the ticks ts, whatever is registered after it *)
+Lemma node1_state ts :
+  increasing 0 ts -> nth_error (gnodes (final g ts)) 1 = Some (S1 (length ts) (last ts 0)).
+Proof.
+  intros Hinc. unfold final, run_graph. exact (proj2 (tinv_run ts 0%nat 0 _ tinv_init Hinc)).
+Qed.
+
+Lemma node1_rdd ts : increasing 0 ts -> rdd_of (final g ts) 1 = R1 (length ts).
+Proof. intros H. unfold rdd_of. rewrite (node1_state ts H). apply S1_rdd. Qed.
+End AnyTail.
+
+(* ---------- with k capturing consumers ---------- *)
+Section Consumers.
+Variable k : nat.
+Local Notation g := (Src q :: nd1 :: consumers 1 k).
+
+Definition CInv (n : nat) (T : Z) (st : gstate) : Prop :=
+  TInv n T st /\ times_le T st /\ length (gnodes st) = S (S k).
+
+Lemma cinv_init : CInv 0 0 (init_state g).
+Proof.
+  split; [apply tinv_init|]. split.
+  - intros i ns Hi. unfold init_state in Hi; cbn [gnodes] in Hi.
+    rewrite nth_error_map in Hi. destruct (nth_error g i) as [nd|] eqn:E; [|discriminate].
+    cbn [option_map] in Hi. inversion Hi; subst.
+    destruct i as [|[|i]]; cbn [nth_error] in E.
+    + inversion E; subst. cbn. unfold dstream_time_init. lia.
+    + inversion E; subst. rewrite S1_init, S1_time. lia.
+    + unfold consumers, consumers_from in E. rewrite nth_error_map in E.
+      destruct (nth_error (seq 0 k) i); [|discriminate]. inversion E; subst. cbn. unfold dstream_time_init. lia.
+  - unfold init_state; cbn [gnodes]. rewrite map_length. unfold consumers. cbn [length].
+    now rewrite consumers_from_length.
+Qed.
+
+Lemma cinv_tick n T t st :
+  CInv n T st -> T < t ->
+  exists st', tick g t st = (st', None) /\ CInv (S n) t st' /\
+    glog st' = glog st ++ map (fun j => (t, Z.of_nat j, obs_of (R1 (S n)))) (seq 0 k).
+Proof.
+  intros (HI & Hle & Hlen) Ht.
+  pose proof (tick_nodes_times_le (length g) g t (seq 0 (length g)) st
+               (times_le_weaken T t st ltac:(lia) Hle)) as Hle'.
+  pose proof (tick_nodes_length (length g) g t (seq 0 (length g)) st) as Hlen'.
+  unfold tick in *. unfold consumers in *. cbn [length seq] in *.
+  rewrite consumers_from_length in *.
+  change (0%nat :: 1%nat :: seq 2 k) with ([0%nat; 1%nat] ++ seq 2 k) in *.
+  destruct (tinv_two_steps (consumers_from 1 0 k) n T t st k HI Ht)
+    as (st2 & E & [I0 I1] & Hlog2 & Hlen2 & Hoth2).
+  rewrite tick_nodes_app, E in *.
+  destruct (consumers_steps k (Src q :: nd1 :: consumers_from 1 0 k) t 1 nd1
+              (S1 (S n) t) k 2 0 st2) as (st' & E' & Hlog' & Hoth' & Hlen'').
+  - intros j Hj. cbn [Nat.add nth_error]. now apply consumers_from_nth.
+  - reflexivity.
+  - exact I1.
+  - rewrite S1_time. lia.
+  - intros j Hj. assert (Hex : (2 + j < length (gnodes st))%nat) by lia.
+    apply nth_error_Some in Hex. destruct (nth_error (gnodes st) (2 + j)) as [ns|] eqn:En; [|congruence].
+    exists ns. rewrite Hoth2 by lia. split; auto. specialize (Hle _ _ En). lia.
+  - rewrite E' in *. cbn [fst] in *. exists st'. split; [reflexivity|]. split.
+    + split; [split|split]; auto.
+      * rewrite Hoth' by lia. exact I0.
+      * rewrite Hoth' by lia. exact I1.
+      * lia.
+    + rewrite Hlog', Hlog2, S1_rdd. reflexivity.
+Qed.
+
+Lemma cinv_run : forall ts n T st,
+  CInv n T st -> increasing T ts ->
+  exists st', run_ticks g ts st = (st', map (fun _ => None) ts) /\
+              CInv (n + length ts) (last ts T) st' /\
+              glog st' = glog st ++ cons_log R1 k n ts.
+Proof.
+  induction ts as [|t ts IH]; intros n T st HI Hinc.
+  - exists st. cbn. rewrite Nat.add_0_r, app_nil_r. auto.
+  - destruct Hinc as [Ht Hinc].
+    destruct (cinv_tick n T t st HI Ht) as (st1 & E1 & HI1 & Hlog1).
+    destruct (IH (S n) t st1 HI1 Hinc) as (st' & E' & HI' & Hlog').
+    exists st'. cbn [run_ticks]. rewrite E1, E'. split; [reflexivity|]. split.
+    + rewrite last_cons. cbn [length]. now rewrite <- Nat.add_succ_comm.
+    + rewrite Hlog', Hlog1, <- app_assoc. reflexivity.
+Qed.
+
+(* no tick raises; every consumer captures, at every tick, exactly once, stream 1's RDD of that interval *)
+Lemma consumers_log ts :
+  increasing 0 ts ->
+  run_graph g ts = (final g ts, map (fun _ => None) ts) /\ glog (final g ts) = cons_log R1 k 0 ts.
+Proof.
+  intros Hinc. destruct (cinv_run ts 0%nat 0 _ cinv_init Hinc) as (st' & E & _ & Hlog).
+  unfold final, run_graph. rewrite E. cbn [fst]. split; [reflexivity|]. exact Hlog.
+Qed.
+End Consumers.
+End TwoNode.
